@@ -500,7 +500,11 @@ def run_property(pid, tier, seed, replay=None):
     }
     extra = getattr(mod, "extra_evidence", None)
     if extra:
-        ev["coverage"].update(extra())
+        import inspect
+        if inspect.signature(extra).parameters:
+            ev["coverage"].update(extra(lines=lines, model_out=model_out, impl_out=impl_out))
+        else:
+            ev["coverage"].update(extra())
     if replay is None:
         os.makedirs(os.path.join(VERIF, "evidence"), exist_ok=True)
         with open(os.path.join(VERIF, "evidence", f"{pid}.json"), "w") as f:
